@@ -116,13 +116,17 @@ def run(tier, seed, rep):
         if subs:
             for acc in (False, True):
                 for ignore in (False, True):
-                    o, r2 = call(lambda: pp.coverage(anngen.build(pp, T), [anngen.build(pp, q) for q in subs],
+                    # target and listed subsequences as objects or as the texts that denote them
+                    as_text = rnd.random() < 0.5
+                    o, r2 = call(lambda: pp.coverage(anngen.render(T) if as_text and rnd.random() < 0.5 else anngen.build(pp, T),
+                                                     [anngen.render(q) if as_text else anngen.build(pp, q) for q in subs],
                                                      accumulate=acc, ignore_mods=ignore))
                     evs.append({"tid": f"m{j}.{len(evs)}", "k": "c16", "op": "coverage", "T": T, "subs": subs,
                                 "accumulate": acc, "ignore": ignore, "out": o, "res": list(r2) if o == "ret" else []})
             for ignore in (False, True):
-                o, r2 = call(lambda: pp.percent_coverage(anngen.build(pp, T), [anngen.build(pp, q) for q in subs],
-                                                         ignore_mods=ignore))
+                as_text = rnd.random() < 0.5
+                o, r2 = call(lambda: pp.percent_coverage(anngen.build(pp, T), [anngen.render(q) if as_text else anngen.build(pp, q)
+                                                                               for q in subs], ignore_mods=ignore))
                 evs.append({"tid": f"m{j}.{len(evs)}", "k": "c16", "op": "percent", "T": T, "subs": subs,
                             "ignore": ignore, "out": o, "res": fix(r2) if o == "ret" else [0, 0]})
         # modifications that differ only in a number (-1 / -2 / -1.0 / -2.0: distinct modifications whose values collide in
